@@ -2,6 +2,9 @@
 // also compiled with -fsanitize-coverage=trace-pc-guard; every basic-block edge of library code bumps a counter.
 // (The sched variant has its own callbacks in sched_rt.cpp; the plain variant has none and the counter stays 0.)
 #include <cstdint>
+#include <vector>
+
+#include "world.h"
 
 namespace sim
 {
@@ -11,6 +14,65 @@ uint64_t edgeCount()
     return g_edges;
 }
 }  // namespace sim
+
+// ------------------------------------------------------------------------------------------------ comparison operands
+// (asan variant: the library is also compiled with -fsanitize-coverage=trace-cmp.) While armed - around ONE decode call -
+// every comparison of a variable with a constant, and every switch, is recorded as (constant, observed value, width).
+// The world then looks the observed value up in the bytes it had just handed to the decoder and, where it finds it,
+// derives a frame in which those bytes spell the constant instead (world.cpp, deriveFromComparisons): the next frame
+// takes the branch this one did not take. Input-to-state correspondence, as in greybox fuzzers - here as one more
+// deterministic fault operator of the simulated network: which frames are derived is a function of plan and code.
+namespace sim
+{
+namespace cmpfb
+{
+static thread_local bool g_armed = false;
+static thread_local std::vector<Operand>* g_ops = nullptr;
+void arm(std::vector<Operand>* sink)
+{
+    g_ops = sink;
+    g_armed = sink != nullptr;
+}
+void disarm()
+{
+    g_armed = false;
+    g_ops = nullptr;
+}
+static inline void note(uint64_t constant, uint64_t observed, int width)
+{
+    if (!g_armed || constant == observed || g_ops->size() >= 96)
+        return;
+    for (auto& o : *g_ops)
+        if (o.constant == constant && o.observed == observed && o.width == width)
+            return;
+    g_ops->push_back(Operand{constant, observed, width});
+}
+}  // namespace cmpfb
+}  // namespace sim
+
+#if !defined(SIM_VARIANT_SCHED)
+extern "C"
+{
+    void __sanitizer_cov_trace_const_cmp1(uint8_t c, uint8_t v) { sim::cmpfb::note(c, v, 1); }
+    void __sanitizer_cov_trace_const_cmp2(uint16_t c, uint16_t v) { sim::cmpfb::note(c, v, 2); }
+    void __sanitizer_cov_trace_const_cmp4(uint32_t c, uint32_t v) { sim::cmpfb::note(c, v, 4); }
+    void __sanitizer_cov_trace_const_cmp8(uint64_t c, uint64_t v) { sim::cmpfb::note(c, v, 8); }
+    void __sanitizer_cov_trace_cmp1(uint8_t, uint8_t) {}
+    void __sanitizer_cov_trace_cmp2(uint16_t, uint16_t) {}
+    void __sanitizer_cov_trace_cmp4(uint32_t, uint32_t) {}
+    void __sanitizer_cov_trace_cmp8(uint64_t, uint64_t) {}
+    void __sanitizer_cov_trace_div4(uint32_t) {}
+    void __sanitizer_cov_trace_div8(uint64_t) {}
+    void __sanitizer_cov_trace_gep(uintptr_t) {}
+    void __sanitizer_cov_trace_switch(uint64_t val, uint64_t* cases)
+    {
+        const uint64_t n = cases[0];
+        const int width = static_cast<int>(cases[1] / 8);
+        for (uint64_t i = 0; i < n && i < 16; ++i)
+            sim::cmpfb::note(cases[2 + i], val, width ? width : 1);
+    }
+}
+#endif
 
 #if !defined(SIM_VARIANT_SCHED)
 extern "C"
